@@ -311,3 +311,43 @@ CORPUS += [
     V("C19", "fjsp-reader-start-op-shifted", _FPP, "end_op_per_job[:, :-1] + 1)", "end_op_per_job[:, :-1] - 1)", "C19.c"),
     V("C19", "eq-fjsp-reader-start-op-commuted", _FPP, "end_op_per_job[:, :-1] + 1)", "1 + end_op_per_job[:, :-1])", None),
 ]
+
+# ---- round 7, first batch
+_PCT7 = R + "pctsp/env.py"
+_MTE7 = R + "mtvrp/env.py"
+_L2DD = "rl4co/models/zoo/l2d/decoder.py"
+_SYMM = "rl4co/models/zoo/symnco/model.py"
+_POMM = "rl4co/models/zoo/pomo/model.py"
+_STO_OLD = "    name = \"pctsp\"\n    _stochastic = False\n"
+_STO_NEW = "    name = \"pctsp\"\n\n    def _set_flags(self):\n        self._stochastic = False\n"
+_PDE7 = R + "pdp/env.py"
+CORPUS += [
+    V("C01", "pctsp-stochastic-flag-on-the-instance", _PCT7, _STO_OLD, _STO_NEW, "C01.v"),
+    V("C06", "pctsp-stochastic-flag-on-the-instance-c06", _PCT7, _STO_OLD, _STO_NEW, "C06.r"),
+    V("C01", "mtsp-fleet-size-of-the-first-instance-c01", _MTS, 'current_node != 0, td["agent_idx"] < td["num_agents"] - 1', 'current_node != 0, td["agent_idx"] < batch_to_scalar(td["num_agents"]) - 1', "C01.w"),
+    V("C03", "mdcpdp-l1-abs-after-sum", _MD, "return torch.abs(cur_loc - prev_loc).norm(p=1, dim=-1)", "return (cur_loc - prev_loc).sum(dim=-1).abs()", "C03.h"),
+    V("C03", "mdcpdp-l1-over-the-batch-axis", _MD, "return torch.abs(cur_loc - prev_loc).norm(p=1, dim=-1)", "return torch.abs(cur_loc - prev_loc).norm(p=1, dim=0)", "C03.h"),
+    V("C03", "eq-mdcpdp-l1-abs-sum", _MD, "return torch.abs(cur_loc - prev_loc).norm(p=1, dim=-1)", "return (cur_loc - prev_loc).abs().sum(-1)", None),
+    V("C03", "eq-mdcpdp-l2-without-abs", _MD, "return torch.abs(cur_loc - prev_loc).norm(p=2, dim=-1)", "return (prev_loc - cur_loc).norm(p=2, dim=-1)", None),
+    V("C05", "cvrp-load-not-restarted-at-the-depot", _CV, "        used_capacity = (td[\"used_capacity\"] + selected_demand) * (\n            current_node != 0\n        ).float()", "        used_capacity = (\n            torch.where(current_node != 0, td[\"used_capacity\"], 0.0) + selected_demand\n        )", "C05.k"),
+    V("C05", "op-leg-as-one-norm-over-the-batch", _OPE, "(current_loc - previus_loc).norm(p=2, dim=-1)", "torch.dist(current_loc, previus_loc, p=2)", "C05.k"),
+    V("C04", "op-leg-as-one-norm-over-the-batch-c04", _OPE, "(current_loc - previus_loc).norm(p=2, dim=-1)", "torch.dist(current_loc, previus_loc, p=2)", "C04.a"),
+    V("C06", "cvrptw-service-inside-the-max", _CW, "torch.max(\n            td[\"current_time\"] + dist, start_times\n        ) + durations", "torch.max(\n            td[\"current_time\"] + dist, start_times + durations\n        )", "C06.s"),
+    V("C06", "op-budget-of-the-first-instance", _OPE, '"max_length": td["max_length"][..., None]\n', '"max_length": td["max_length"][0]\n', "C06.t"),
+    V("C09", "neuopt-decoding-loop-early-exit", _NO, "        for i in range(env.k_max):\n            # Pass RDS decoder\n", "        for i in range(env.k_max):\n            if i > 0 and stopped.all():\n                break\n            # Pass RDS decoder\n", "C09.k"),
+    V("C09", "pdp-unlinked-pickup-not-self-looped", _PDE7, "        rec.scatter_(1, pair_index, pair_index)\n", "", "C09.f"),
+    V("C14", "mtvrp-return-leg-by-a-batch-wide-branch", _MTE7, "td[\"current_route_length\"] + d_ij + (d_j0 * ~td[\"open_route\"])", "td[\"current_route_length\"] + d_ij + (d_j0 if not td[\"open_route\"].all() else 0)", "C14.k"),
+    V("C14", "l2d-einsum-second-batch-symbol", _L2DD, '"b m o, b m e -> b o e"', '"bs m o, b m e -> bs o e"', "C14.j"),
+    V("C14", "eq-l2d-einsum-renamed-consistently", _L2DD, '"b m o, b m e -> b o e"', '"n m o, n m e -> n o e"', None),
+    V("C14", "mdam-heads-first-view", _MDD, "        glimpse_Q = query.view(\n            batch_size, num_steps, self.num_heads, 1, key_size\n        ).permute(2, 0, 1, 3, 4)", "        glimpse_Q = query.view(self.num_heads, batch_size, num_steps, 1, key_size)", "C14.f"),
+    V("C15", "symnco-aug-max-over-the-last-axis", _SYMM, "                reward_ = max_reward if n_start > 1 else reward\n                max_aug_reward, max_idxs = reward_.max(dim=1)", "                max_aug_reward, max_idxs = reward.max(dim=-1)", "C15.j"),
+    V("C15", "pomo-aug-max-of-the-raw-rewards", _POMM, "                reward_ = max_reward if n_start > 1 else reward\n                max_aug_reward, max_idxs = reward_.max(dim=1)", "                max_aug_reward, max_idxs = reward.max(dim=1)", "C15.j"),
+    V("C15", "reinforce-select-best-only-in-test", _RFF, 'select_best=phase != "train"', 'select_best=phase == "test"', "C15.k"),
+    V("C15", "eq-reinforce-select-best-not-train", _RFF, 'select_best=phase != "train"', 'select_best=not (phase == "train")', None),
+    V("C15", "eq-reinforce-select-best-membership", _RFF, 'select_best=phase != "train"', 'select_best=phase in ("val", "test")', None),
+    V("C15", "select-best-only-for-multistart", _DEC, "        if self.num_starts > 0 and self.select_best:", "        if self.multistart and self.select_best:", "C15.k"),
+    V("C18", "mtvrp-flag-written-into-a-copy", _MG, "                    keep_mask[:, :2] |= keep_mask[:, 4:5]", "                    keep_mask[keep_mask[:, 4]][:, :2] = True", "C18.t"),
+    V("C18", "mtvrp-capacity-normalised-unconditionally", _MG, "            demand_linehaul /= vehicle_capacity\n            vehicle_capacity /= vehicle_capacity", "            demand_linehaul /= vehicle_capacity\n        vehicle_capacity /= vehicle_capacity", "C18.u"),
+    V("C19", "polynet-restore-takes-the-key-tail", _PLY, 'k.replace("policy.", "", 1): v', 'k.split("policy.", 1)[-1]: v', "C19.j"),
+    V("C19", "eq-polynet-restore-removeprefix", _PLY, 'k.replace("policy.", "", 1): v', '(k[len("policy."):] if k.startswith("policy.") else k): v', None),
+]
